@@ -24,6 +24,22 @@ impl<K: SimKernel<D>, const D: usize> Monitor<K, D> for C01 {
             if out.kind == OutKind::Err {
                 ctx.stats.bump("c01.construction_err");
             }
+            // "Unsuitable input yields Err, never a panic": every generated input is finite
+            if out.kind == OutKind::Panic && out.tag != "tick-ceiling" && verts.iter().all(|v| v.coords().iter().all(|c| c.is_finite())) {
+                ctx.stats.evaluations += 1;
+                let first = out.detail.lines().next().unwrap_or("");
+                let mut shape = String::new();
+                for c in first.chars().take(100) {
+                    let c = if c.is_ascii_digit() { '#' } else { c };
+                    if !(c == '#' && shape.ends_with('#')) {
+                        shape.push(c);
+                    }
+                }
+                push_violation(
+                    ctx.violations,
+                    violation("C01", "constructor-panicked", ctx.step, format!("ctor={ctor}|d={D}|{shape}"), format!("constructor panicked on a finite point set: {} [opts={opts:?}, faults={:?}]", out.detail, ctx.oprec.faults)),
+                );
+            }
             return;
         }
         let Some(post) = post else { return };
